@@ -307,6 +307,8 @@ class Analysis:
         if v[0] == "bytes":
             # &[u8; N] or &[u8] / &str constant
             return ("const", len(v[1]), "usize")
+        if v[0] == "call" and v[1].rsplit("::", 1)[-1] in ("from_raw_parts", "from_raw_parts_mut") and len(v[2]) == 2:
+            return v[2][1]
         if v[0] == "static":
             s = self.F.statics.get(v[1]) if self.F else None
             if s is not None:
@@ -504,10 +506,13 @@ class Analysis:
             # value of what each pointer argument points to, before the call
             pre = []
             for a in args:
-                if a[0] == "ref":
-                    pre.append(self.read(st, a[1]))
+                a0 = a
+                while a0[0] in ("unsize", "ptrcast"):
+                    a0 = a0[1] if a0[0] == "unsize" else a0[2]
+                if a0[0] == "ref":
+                    pre.append(self.read(st, a0[1]))
                 else:
-                    pre.append(self.read(st, ("deref", a)))
+                    pre.append(self.read(st, ("deref", a0)))
             # clobber what is reachable through &mut arguments
             for ai, (a, aty) in enumerate(zip(args, t["aty"])):
                 if aty.startswith("&mut ") or aty.startswith("*mut "):
